@@ -281,3 +281,56 @@ pub open spec fn spawn_wrap(lazy: bool, is_spawn: bool, is_async: bool, multi: b
         }
     }
 }
+
+#[verifier::opaque]
+pub open spec fn started_as(t: Seq<Tok>, lazy: bool, is_spawn: bool, is_async: bool, multi: bool, b: usize) -> bool {
+    exists|c: Seq<Tok>| #[trigger] is_toks(c) && t == spawn_wrap(lazy, is_spawn, is_async, multi, b, c)
+}
+
+/// `step_acts_ok`, hidden: `generate_step` only passes it on to `generate_step_branch`
+#[verifier::opaque]
+pub open spec fn acts_ok_o<'a>(acts: Seq<&'a ExprGroup<ActionExpr>>) -> bool { step_acts_ok(acts) }
+
+/// what `JoinOutput::new` establishes about `chains` (its step split is verified as `split_branch_steps`; that the
+/// fields are filled from it is read off the code, see assumptions): `chains[b]` has `depths[b]` steps, every step has
+/// at least one action and is something the parser can produce
+pub open spec fn chains_wf(jo: JoinOutput) -> bool {
+    &&& jo.chains@.len() == jo.branch_count
+    &&& jo.depths@.len() == jo.branch_count
+    &&& forall|b: int| 0 <= b < jo.branch_count ==> (#[trigger] jo.chains@[b])@.len() == jo.depths@[b]
+    &&& forall|b: int, s: int| 0 <= b < jo.branch_count && 0 <= s < jo.depths@[b] ==> (#[trigger] jo.chains@[b]@[s])@.len() > 0 && acts_ok_o(jo.chains@[b]@[s]@)
+}
+
+/// position of branch `b` among the branches active in `step` (hidden: the proofs below only need its two lemmas)
+#[verifier::opaque]
+pub open spec fn apos(depths: Seq<usize>, step: int, b: int) -> int { count_active(depths.take(b), step) }
+
+pub proof fn lemma_apos_step(depths: Seq<usize>, step: int, i: int)
+    requires 0 <= i < depths.len(),
+    ensures apos(depths, step, i + 1) == apos(depths, step, i) + if depths[i] > step { 1int } else { 0int },
+            apos(depths, step, i) >= 0,
+    decreases i
+{
+    reveal(apos);
+    assert(depths.take(i + 1).drop_last() =~= depths.take(i));
+    assert(depths.take(i + 1).last() == depths[i]);
+    if i > 0 { lemma_apos_step(depths, step, i - 1); } else { assert(depths.take(0).len() == 0); }
+}
+
+pub proof fn lemma_apos_ends(depths: Seq<usize>, step: int)
+    ensures apos(depths, step, 0) == 0, apos(depths, step, depths.len() as int) == count_active(depths, step),
+{
+    reveal(apos);
+    assert(depths.take(0).len() == 0);
+    assert(depths.take(depths.len() as int) =~= depths);
+}
+
+/// C03 / C04 / C09: the streams of a step, looking at the first `upto` branches: one per branch ACTIVE in the step, in
+/// branch order (branch b sits at position apos(b)), each started as `spawn_wrap` says for ITS OWN branch index
+pub open spec fn step_streams_ok(ds: Seq<Option<TokenStream>>, ss: Seq<TokenStream>, jo: JoinOutput, step: int, is_async: bool, is_spawn: bool, upto: int) -> bool {
+    &&& ds.len() == ss.len()
+    &&& ss.len() == apos(jo.depths@, step, upto)
+    &&& forall|b: int| 0 <= b < upto && jo.depths@[b] > step ==>
+            0 <= #[trigger] apos(jo.depths@, step, b) < ss.len()
+            && started_as(ss[apos(jo.depths@, step, b)]@, jo.lazy_branches, is_spawn, is_async, count_active(jo.depths@, step) > 1, b as usize)
+}
